@@ -131,7 +131,13 @@ func (s *streamer[I, O]) Flow(sCtx signal.Context, opts ...confluence.Option) {
 					return nil
 				}
 				s.Channels = s.translateRequest(req).Channels
-			case rf := <-frames.Outlet():
+			case rf, ok := <-frames.Outlet():
+				if !ok {
+					// The relay has shut down (database closed) and closed this
+					// connection. Without this check the select keeps receiving zero
+					// values from the closed channel and the streamer spins forever.
+					return nil
+				}
 				if filtered := rf.frame.KeepKeys(s.Channels); !filtered.Empty() {
 					if err := signal.SendUnderContext(
 						ctx,
